@@ -163,7 +163,11 @@ Definition hist_model (c : list param * list str * list call) : list (option val
                  dict(args=[5], kwargs=[['b', 1.0]], force=False, only=False, store=None),
                  dict(args=[5], kwargs=[], force=True, only=False, store=None),
                  dict(args=[6], kwargs=[], force=False, only=False, store=['given']),
-                 dict(args=[6], kwargs=[], force=False, only=False, store=None)]
+                 dict(args=[6], kwargs=[], force=False, only=False, store=None),
+                 dict(args=[7], kwargs=[], force=False, only=False, store=[None]),
+                 dict(args=[7], kwargs=[], force=False, only=True, store=None),
+                 dict(args=[5], kwargs=[], force=True, only=False, store=[None]),
+                 dict(args=[5], kwargs=[], force=False, only=False, store=None)]
         return [dict(sig=sig, ignore=[], calls=calls), dict(sig=sig, ignore=['c'], calls=calls),
                 dict(sig=sig, ignore=[], calls=calls, cache='json'), dict(sig=sig, ignore=['c'], calls=calls, cache='json')]
 
